@@ -65,6 +65,18 @@ def brick_wrap(x, v):
     return x
 
 
+def at_face(x32, v, ulps=2):
+    """Some stored y or z coordinate lies within `ulps` float32 steps below the upper face of the brick cell."""
+    x = np.asarray(x32, dtype=F)
+    for k in (1, 2):
+        lim = F(v[k][k])
+        for _ in range(ulps):
+            lim = np.nextafter(lim, F(-np.inf))
+        if np.any((x[..., k] >= lim) & (x[..., k] < F(v[k][k]))):
+            return True
+    return False
+
+
 def in_brick(x32, v):
     """All stored points inside the brick primary cell the voxel code assumes (float64 test of float32 data)."""
     x = np.asarray(x32, dtype=np.float64)
@@ -101,16 +113,31 @@ IN_F, OUT_F = 1 - 2e-3, 1 + 2e-3
 EDGE_EPS = (0.0, 1e-4, -1e-4)
 
 
-def voxel_bases(ny, nz, vsy, vsz, ax, cutoff, quick):
+def below(x):
+    """Largest float32 below x."""
+    return float(np.nextafter(F(x), F(-np.inf)))
+
+
+def voxel_bases(ny, nz, vsy, vsz, ax, cutoff, quick, by=None, cz=None):
     """The complete designed product of base points on voxel boundaries:
-    ky x kz (voxel boundary numbers incl. 0 and n = the cell face) x (ey, ez) in {0,+1e-4,-1e-4}^2 x x0."""
+    (ky, ey) x (kz, ez) x x0 with k = voxel boundary number incl. 0 and n (= the cell face), e in {0,+1e-4,-1e-4}
+    and, on the upper cell face only (periodic: by, cz given), additionally the largest float32 below the face."""
     def ks(n):
         s = {0, n} | ({n // 2} if quick else {1, n // 2, n - 1})
         return sorted(k for k in s if 0 <= k <= n)
-    xs = [1e-4, 0.5 * ax] if quick else [1e-4, float(cutoff), 0.5 * ax, ax - float(cutoff), ax - 1e-4]
+
+    def axis(n, vs, face):
+        out = []
+        for k in ks(n):
+            for e in EDGE_EPS:
+                out.append((float(F(F(vs) * F(k))) + e, k, e))
+            if k == n and face is not None:
+                out.append((below(face), k, "face-1ulp"))
+        return out
+    xs = [1e-4, 0.5 * ax] if quick else [1e-4, float(cutoff), 0.5 * ax, ax - float(cutoff), ax - 1e-4, below(ax)]
     out = []
-    for ky, kz, ey, ez, x0 in itertools.product(ks(ny), ks(nz), EDGE_EPS, EDGE_EPS, xs):
-        out.append((x0, float(F(F(vsy) * F(ky))) + ey, float(F(F(vsz) * F(kz))) + ez, (ky, kz, ey, ez, round(x0, 6))))
+    for (y, ky, ey), (z, kz, ez), x0 in itertools.product(axis(ny, vsy, by), axis(nz, vsz, cz), xs):
+        out.append((x0, y, z, (ky, kz, ey, ez, round(x0, 6))))
     return out
 
 
